@@ -200,68 +200,148 @@ def check_raise_args(ctx):
            '(path: %s)' % bad.cond_text()[-300:])
 
 
-def check_debug(ctx):
-    prog = ctx.prog
-    enf = prog.func(POLICY + '.Enforcer.enforce')
-    dbg = None
-    for n in walk_no_nested(enf.node):
-        if isinstance(n, ast.If) and any(
-                isinstance(c, ast.Call) and method_call(c, 'isEnabledFor')
-                for c in ast.walk(n.test)):
-            dbg = n
-    if dbg is None:
-        ctx.ob('C07.DEBUG', True, ctx.where(enf.module, enf.node), enf.qual,
-               'no debug dump', 'enforce has no debug-only branch',
-               nontrivial=False)
-        return
-    pm = parent_map(dbg)
-    trys = [n for n in ast.walk(dbg) if isinstance(n, ast.Try)]
+def _broad_quiet(prog, module, tnode):
+    broad = reraises = False
+    for h in tnode.handlers:
+        names = handler_names(prog, module, h)
+        if any(x in ('builtin:Exception', 'builtin:BaseException')
+               for x in names):
+            broad = True
+        if any(isinstance(x, ast.Raise) for x in ast.walk(h)):
+            reraises = True
+    return broad and not reraises
+
+
+def _debug_scan(ctx, prog, fn, stmts, report, depth=0, seen=None):
+    """Obligations on a debug-only block: each try swallows everything,
+    every call outside such a try is the logger, a harmless builtin, or a
+    package helper that obeys the same rule."""
+    seen = seen if seen is not None else {}
+    holder = ast.Module(body=list(stmts), type_ignores=[])
+    pm = parent_map(holder)
     ntry = 0
-    for tnode in trys:
+    for tnode in [n for n in walk_no_nested(holder)
+                  if isinstance(n, ast.Try)]:
         ntry += 1
-        broad = False
-        reraises = False
-        for h in tnode.handlers:
-            names = handler_names(prog, enf.module, h)
-            if any(x in ('builtin:Exception', 'builtin:BaseException')
-                   for x in names):
-                broad = True
-            if any(isinstance(x, ast.Raise) for x in ast.walk(h)):
-                reraises = True
-        ok = broad and not reraises
-        ctx.ob('C07.DEBUG', ok, ctx.where(enf.module, tnode), enf.qual,
+        ok = _broad_quiet(prog, fn.module, tnode)
+        report('try', ok, tnode, fn,
                'debug dump try@%d handlers %s' % (tnode.lineno, [
                    U(h.type) if h.type is not None else 'bare'
                    for h in tnode.handlers]),
                'formatting failures of the debug dump are swallowed' if ok
                else 'the debug dump can raise out of enforce: its handler '
                'does not catch Exception (or re-raises)')
-    # calls outside any try in the branch: only the logger
-    for c in ast.walk(dbg):
-        if not isinstance(c, ast.Call) or c is dbg.test:
-            continue
-        if any(c is x for x in ast.walk(dbg.test)):
+    for r in [n for n in walk_no_nested(holder) if isinstance(n, ast.Raise)]:
+        cur, inside = r, False
+        while cur in pm:
+            par = pm[cur]
+            if isinstance(par, ast.Try) and any(cur is b for b in par.body) \
+                    and _broad_quiet(prog, fn.module, par):
+                inside = True
+            cur = par
+        if not inside:
+            report('call', False, r, fn, 'raise in the debug dump',
+                   'the debug-only code raises: switching debug logging on '
+                   'can make enforce raise')
+    for c in walk_no_nested(holder):
+        if not isinstance(c, ast.Call):
             continue
         inside = False
         cur = c
         while cur in pm:
             par = pm[cur]
-            if isinstance(par, ast.Try) and any(cur is b for b in par.body):
+            if isinstance(par, ast.Try) and any(cur is b for b in par.body) \
+                    and _broad_quiet(prog, fn.module, par):
                 inside = True
             if isinstance(par, ast.ExceptHandler):
                 inside = True
             cur = par
         if inside:
             continue
-        r = prog.resolve(enf.module, c.func) or ''
+        r = prog.resolve(fn.module, c.func) or ''
         recv = method_call(c)
         safe = (recv is not None and U(recv[0]) == 'LOG') or r in (
             'builtin:isinstance', 'builtin:str', 'builtin:type')
-        ctx.ob('C07.DEBUG', safe, ctx.where(enf.module, c), enf.qual,
-               'unguarded call ' + U(c)[:80],
+        if not safe:
+            g = None
+            try:
+                g = prog.callee_of(fn, c)
+            except Exception:
+                g = None
+            if g is not None and g.qual in seen:
+                if seen[g.qual]:
+                    continue
+            elif g is not None and depth < 3:
+                seen[g.qual] = True       # recursion: optimistic
+                sub = []
+                n2 = _debug_scan(
+                    ctx, prog, g, g.node.body,
+                    lambda *a: sub.append(a), depth + 1, seen)
+                ntry += n2
+                for a in sub:
+                    report(*a)
+                safe = all(a[1] for a in sub)
+                seen[g.qual] = safe
+                # the helper must not touch what it is given
+                for n in walk_no_nested(g.node):
+                    bad = None
+                    if isinstance(n, ast.Call):
+                        mc = method_call(n)
+                        if mc and isinstance(mc[0], ast.Name) and \
+                                mc[0].id in g.params and mc[1] in (
+                                    'pop', 'update', 'clear', 'setdefault',
+                                    'popitem', '__setitem__', '__delitem__',
+                                    'append', 'extend', 'remove'):
+                            bad = n
+                    if isinstance(n, (ast.Assign, ast.AugAssign,
+                                      ast.Delete)):
+                        ts = n.targets if not isinstance(
+                            n, ast.AugAssign) else [n.target]
+                        for tg in ts:
+                            if isinstance(tg, (ast.Subscript,
+                                               ast.Attribute)) and \
+                                    isinstance(tg.value, ast.Name) and \
+                                    tg.value.id in g.params:
+                                bad = n
+                    if bad is not None:
+                        report('mut', False, bad, g, 'debug helper effects',
+                               'the debug-only helper modifies the inputs '
+                               'of the decision: %s' % U(bad)[:60])
+                if safe:
+                    continue
+                continue
+        report('call', safe, c, fn, 'unguarded call ' + U(c)[:80],
                'only the logger is called outside the guarded dumps'
                if safe else 'a call in the debug-only branch is not guarded: '
                'switching debug logging on can make enforce raise')
+    return ntry
+
+
+def check_debug(ctx):
+    prog = ctx.prog
+    enf0 = prog.func(POLICY + '.Enforcer.enforce')
+    # the debug-only branch may sit in enforce or in a helper it calls
+    cands = [enf0] + [g for q, g in sorted(prog.region(
+        enf0, stop=(POLICY + '.Enforcer.load_rules',)).items())
+        if g.cls is enf0.cls and g is not enf0]
+    enf, dbg = enf0, None
+    for g in cands:
+        for n in walk_no_nested(g.node):
+            if isinstance(n, ast.If) and any(
+                    isinstance(c, ast.Call) and method_call(c,
+                                                            'isEnabledFor')
+                    for c in ast.walk(n.test)) and dbg is None:
+                enf, dbg = g, n
+    if dbg is None:
+        ctx.ob('C07.DEBUG', True, ctx.where(enf.module, enf.node), enf.qual,
+               'no debug dump', 'enforce has no debug-only branch',
+               nontrivial=False)
+        return
+
+    def report(kind, ok, node, fn, construct, detail):
+        ctx.ob('C07.DEBUG', ok, ctx.where(fn.module, node), fn.qual,
+               construct, detail)
+    ntry = _debug_scan(ctx, prog, enf, dbg.body, report)
     # names defined in the branch are not used after it
     defined = {n.id for n in ast.walk(dbg) if isinstance(n, ast.Name)
                and isinstance(n.ctx, ast.Store)}
@@ -282,7 +362,7 @@ def check_debug(ctx):
     for n in ast.walk(dbg):
         if isinstance(n, ast.Call):
             mc = method_call(n)
-            if mc and U(mc[0]) in (prm[2], prm[3]) and mc[1] in (
+            if mc and U(mc[0]) in prm[1:] and mc[1] in (
                     'pop', 'update', 'clear', 'setdefault', 'popitem',
                     '__setitem__', '__delitem__'):
                 muts.append(n)
@@ -290,8 +370,7 @@ def check_debug(ctx):
             ts = n.targets if not isinstance(n, ast.AugAssign) else [
                 n.target]
             for tg in ts:
-                if isinstance(tg, ast.Subscript) and U(tg.value) in (
-                        prm[2], prm[3]):
+                if isinstance(tg, ast.Subscript) and U(tg.value) in prm[1:]:
                     muts.append(n)
                 if isinstance(tg, ast.Name) and tg.id in prm:
                     muts.append(n)
